@@ -329,6 +329,17 @@ func cmdCheck(args []string) int {
 		outs = append(outs, k+": "+strings.Join(v, "; "))
 	}
 	sort.Strings(outs)
+	// thorough tier: vacuity guard. The must-fail corpus of this property (hand-written breaking changes and reverted
+	// fixes, each applied to a scratch copy of /repo) is run through the quick check; every one must be reported.
+	// A miss is a weakness of the machinery, not of /repo: it is recorded and printed, it does not change the verdict.
+	var mustFail map[string]any
+	if *tier == "thorough" && violations == 0 && os.Getenv("GOVC_NO_CORPUS") == "" {
+		n, caught, missed := mustFailCorpus(prop)
+		mustFail = map[string]any{"mutants": n, "reported": caught, "missed": orEmpty(missed)}
+		for _, m := range missed {
+			fmt.Printf("WARNING: must-fail mutant %s of %s was not reported by the quick check\n", m, prop)
+		}
+	}
 	ev := map[string]any{
 		"property_id": prop,
 		"tier":        *tier,
@@ -347,6 +358,7 @@ func cmdCheck(args []string) int {
 			"functions_under_contract":        orEmpty(fns),
 			"functions_outside_subset":        orEmpty(outs),
 			"bounded_companions":              confOrEmpty(conf),
+			"must_fail_corpus":                mustFail,
 			"integers":                        "mathematical Int with explicit no-overflow obligations at arithmetic sites (A1)",
 			"explanation":                     "VCs generated from go/ssa of /repo's working tree (tags: verif); each obligation is facts ⊢ cond ⇒ goal, discharged iff some solver answers unsat and none answers sat",
 		},
@@ -641,6 +653,70 @@ func snapshotVerif() (dir, self string, cleanup func()) {
 	data, _ := os.ReadFile(exe)
 	_ = os.WriteFile(self, data, 0755)
 	return dir, self, cleanup
+}
+
+// mustFailCorpus applies every selftest mutant of the property to a scratch copy of /repo and runs the quick check
+// on it (three at a time); it returns how many there are, how many were reported and which were not.
+func mustFailCorpus(prop string) (int, int, []string) {
+	dir := filepath.Join(verifDir(), "selftest", "mutants")
+	metas, _ := filepath.Glob(filepath.Join(dir, "*.json"))
+	sort.Strings(metas)
+	self, _ := os.Executable()
+	base, _ := os.MkdirTemp("/var/tmp", "govc-mf-base-")
+	defer os.RemoveAll(base)
+	if out, err := exec.Command("rsync", "-a", "--exclude", ".git", repoDir()+"/", base+"/").CombinedOutput(); err != nil {
+		fmt.Printf("WARNING: must-fail corpus skipped: rsync: %v %s\n", err, out)
+		return 0, 0, nil
+	}
+	var mu sync.Mutex
+	var wg sync.WaitGroup
+	sem := make(chan struct{}, 3)
+	n, caught := 0, 0
+	var missed []string
+	for _, m := range metas {
+		var meta struct {
+			Name     string `json:"name"`
+			Patch    string `json:"patch"`
+			Property string `json:"property"`
+		}
+		data, _ := os.ReadFile(m)
+		if json.Unmarshal(data, &meta) != nil || meta.Property != prop {
+			continue
+		}
+		n++
+		wg.Add(1)
+		sem <- struct{}{}
+		go func() {
+			defer wg.Done()
+			defer func() { <-sem }()
+			scratch, _ := os.MkdirTemp("/var/tmp", "govc-mf-")
+			defer os.RemoveAll(scratch)
+			repo := filepath.Join(scratch, "repo")
+			ok := false
+			if _, err := exec.Command("rsync", "-a", base+"/", repo+"/").CombinedOutput(); err == nil {
+				cmd := exec.Command("patch", "-p1", "-s", "-i", filepath.Join(dir, meta.Patch))
+				cmd.Dir = repo
+				if _, err := cmd.CombinedOutput(); err == nil {
+					c := exec.Command(self, "check", prop, "--tier", "quick")
+					c.Env = append(os.Environ(), "GOVC_REPO="+repo, "GOVC_EVIDENCE_DIR="+filepath.Join(scratch, "ev"), "GOVC_REPLAY_DIR="+filepath.Join(scratch, "replays"))
+					out, err := c.CombinedOutput()
+					if ee, isExit := err.(*exec.ExitError); isExit && ee.ExitCode() == 1 && strings.Contains(string(out), "VIOLATION property="+prop) {
+						ok = true
+					}
+				}
+			}
+			mu.Lock()
+			if ok {
+				caught++
+			} else {
+				missed = append(missed, meta.Name)
+			}
+			mu.Unlock()
+		}()
+	}
+	wg.Wait()
+	sort.Strings(missed)
+	return n, caught, missed
 }
 
 func indent(s string) string {
